@@ -1089,7 +1089,7 @@ pub fn oracle(c: &BCase, ctx: &mut Ctx, thorough: bool) -> CaseResult {
 			// A panic in the test suite's scripted helpers means the generated history left the
 			// script they expect (harness-side); anything else (persister, chain monitor, store)
 			// is reported.
-			if loc.contains("functional_test_utils.rs") {
+			if loc.contains("test_utils.rs") {
 				ctx.discard();
 				ctx.label("history:discarded-helper-panic");
 				return Ok(());
